@@ -64,22 +64,25 @@ def stateOnShutdown : TcpState → TcpState
   | .closeWait => .lastAck
   | o => o
 
+/-- Is `ack` a cumulative ACK of something in flight (`acked > 0 && acked <= in_flight`, tcp.rs:303)? -/
+def ackValid (t : Tcb) (ack : Nat) : Bool :=
+  decide (0 < wsub ack t.sndUna) && decide (wsub ack t.sndUna ≤ t.inFlight)
+
+/-- Freeing the acknowledged bytes (tcp.rs:304-328). -/
+def ackAdvance (t : Tcb) (ack : Nat) : Tcb :=
+  let acked := wsub ack t.sndUna
+  let fa := t.finAckedBy ack
+  { t with
+    sendBuf := t.sendBuf.drop (if fa then acked - 1 else acked)
+    sndUna := ack
+    egressSinceAck := 0
+    retxAttempts := 0
+    state := if fa then stateOnFinAck t.state else t.state }
+
 /-- ACK processing of `handle_established` (tcp.rs:297-332). -/
 def onAck (t : Tcb) (s : Seg) : Tcb :=
   if s.flags.ack then
-    let acked := wsub s.ack t.sndUna
-    let t1 :=
-      if 0 < acked ∧ acked ≤ t.inFlight then
-        let fa := t.finAckedBy s.ack
-        let dataBytes := if fa then acked - 1 else acked
-        { t with
-          sendBuf := t.sendBuf.drop dataBytes
-          sndUna := s.ack
-          egressSinceAck := 0
-          retxAttempts := 0
-          state := if fa then stateOnFinAck t.state else t.state }
-      else t
-    { t1 with sndWnd := s.window }
+    { (if t.ackValid s.ack then t.ackAdvance s.ack else t) with sndWnd := s.window }
   else t
 
 /-- Number of payload bytes `handle_established` accepts (tcp.rs:337-346). -/
